@@ -91,6 +91,9 @@ def rand_scenario(
     hooks=True,
     placements=False,
     p_bogus_handler=0.0,
+    p_abort_flag=0.0,
+    slow_hooks=False,
+    exotic_callables=False,
 ):
     n = rng.randint(*max_attempts)
     nout = n + 1
@@ -146,6 +149,10 @@ def rand_scenario(
             if p_bogus_handler and rng.random() < p_bogus_handler:
                 pool = pool + ["bogus"]
             handler = [rng.choice(pool) for _ in range(nout)]
+        if p_abort_flag and rng.random() < p_abort_flag:
+            extra_abort = rng.randint(1, n)
+        else:
+            extra_abort = None
         calls.append(
             mk_call(
                 outs,
@@ -157,11 +164,17 @@ def rand_scenario(
                 gap=rng.choice([0.0, 0.0, G, 1.0, 10.0]) if timing else 0.0,
             )
         )
+        calls[-1]["abort_after_op"] = extra_abort
+        if extra_abort is not None:
+            calls[-1]["abort_at"] = None
+        if slow_hooks:
+            calls[-1]["handler_dur"] = [rng.choice([0.0, 0.0, G, 0.25]) for _ in range(nout)]
+            calls[-1]["bs_dur"] = [rng.choice([0.0, 0.0, G, 0.25]) for _ in range(nout)]
     return {
         "cfg": cfg,
         "place": place,
-        "bs_kind": rng.choice(["sync", "async"]),
-        "sleeper_kind": rng.choice(["async", "async", "sync"]),
+        "bs_kind": rng.choice(["sync", "async", "lambda"] if exotic_callables else ["sync", "async"]),
+        "sleeper_kind": rng.choice(["async", "sync", "lambda", "callable"] if exotic_callables else ["async", "async", "sync"]),
         "timeline": rng.choice([False, True, "obj"]),
         "poll": rng.random() < 0.15,
         "calls": calls,
@@ -175,6 +188,14 @@ def rand_breaker(rng):
     if rng.random() < 0.4:
         for k in rng.sample(CLASSES, rng.randint(1, 2)):
             ct[k] = rng.randint(1, 3)
+    r_ = rng.random()
+    trip_cfg = trip
+    if r_ < 0.12:
+        trip_cfg = None  # library default {TRANSIENT, SERVER_ERROR}
+        trip = ["TRANSIENT", "SERVER_ERROR"]
+    elif r_ < 0.2 and ct:
+        trip_cfg = []  # trip only through class thresholds
+        trip = sorted(ct)
     window, recovery = rng.choice([(1.0, 5.0), (10.0, 5.0), (5.0, 5.0), (2.0, 1.0)])
     pre = []
     init = rng.choice(["closed", "closed", "near", "open", "expired", "halfopen"])
@@ -192,7 +213,8 @@ def rand_breaker(rng):
         "threshold": th,
         "window": window,
         "recovery": recovery,
-        "trip_on": trip,
+        "trip_on": trip_cfg,
+        "effective_trip_on": sorted(set(trip) | set(ct)),
         "class_thresholds": ct,
         "pre": pre,
     }
